@@ -469,6 +469,8 @@ func (ex *Exec) applyContractVals(fr *Frame, in ssa.Instruction, ct *Contract, c
 }
 
 func (ex *Exec) evalLets(ct *Contract, env *SpecEnv) {
+	specDepth++
+	defer func() { specDepth-- }()
 	for _, l := range ct.Lets {
 		func() {
 			defer func() {
@@ -493,6 +495,8 @@ func shortName(s string) string {
 // havocSpec interprets one modifies item:  "*x" / "x.*" (whole pointee), "x.F" (field of pointee),
 // "x[:]" (content of slice, elements 0..len), "x[a:b]".
 func (ex *Exec) havocSpec(m string, env *SpecEnv, st *State, ct *Contract) {
+	specDepth++
+	defer func() { specDepth-- }()
 	m = strings.TrimSpace(m)
 	defer func() {
 		if r := recover(); r != nil {
@@ -634,6 +638,8 @@ const iterGap = 1000000 // region ids reserved for allocations of earlier iterat
 
 // loopEnv: names visible in loop clauses: parameters, source-level locals (DebugRef), header phis.
 func (ex *Exec) loopEnv(fr *Frame, b *ssa.BasicBlock, st *State, old *State) *SpecEnv {
+	specDepth++
+	defer func() { specDepth-- }()
 	fn := fr.fn
 	var args []Value
 	for _, p := range fn.Params {
